@@ -69,7 +69,12 @@ def mkvalue(v: Dict[str, Any]) -> Any:
   if t == 'dict':
     return {key_name(k): mkvalue(x) for k, x in xs}
   if t == 'obj':
-    return CLASSES[a]()
+    if not xs:
+      return CLASSES[a]()
+    # an object with explicit content (classes registered by the C03 driver); missing members make it partial
+    kwargs = {key_name(k): mkvalue(x) for k, x in xs if x['t'] != 'missing'}
+    with pg.allow_partial(True):
+      return CLASSES[a](**kwargs)
   raise ValueError(f'unknown value record {v}')
 
 
@@ -101,7 +106,11 @@ def encode(x: Any) -> Dict[str, Any]:
   if isinstance(x, pg.Object):
     if type(x) not in CLASS_IDS:
       raise NotEncodable(repr(x))
-    return V('obj', CLASS_IDS[type(x)])
+    cid = CLASS_IDS[type(x)]
+    if cid < 10:
+      return V('obj', cid)
+    kvs = sorted((key_code(k), encode(x.sym_getattr(k))) for k in x.sym_keys())
+    return V('obj', cid, [[k, e] for k, e in kvs])
   if pg.MISSING_VALUE == x:       # MissingValue(spec) instances compare equal to MISSING_VALUE
     return V('missing')
   if isinstance(x, list):
@@ -167,7 +176,9 @@ def _build(s: Dict[str, Any]) -> pgt.ValueSpec:
   if t == 'Dict':
     if not s['fields']:
       return pgt.Dict(**kw)
-    return pgt.Dict([(pgt.StrKey('^d') if k == 0 else key_name(k), build(f)) for k, f in s['fields']], **kw)
+    def key(k):
+      return pgt.StrKey('^d') if k == 0 else pgt.StrKey() if k == -1 else key_name(k)
+    return pgt.Dict([(key(k), build(f)) for k, f in s['fields']], **kw)
   if t == 'DictDyn':
     return pgt.Dict([(pgt.StrKey(), build(s['fields'][0][1]))], **kw)
   if t == 'Object':
